@@ -1,6 +1,7 @@
 import WM.Proto
 import WM.Spec.Search
 import WM.Model.Compile
+import WM.Spec.SearchStats
 /-!
 Protocol handler of family `c01` (shared with `c09`).
 
@@ -14,7 +15,9 @@ QUERY  = (term f hex boost) | (multi f PRED boost cs) | (phrase f (hex ...) slop
        | (andnot A B) | (andmaybe A B) | (require A B) | (const Q score)
 PRED   = (pfx hex) | (range lo hi loExcl hiExcl) | (glob (G ...)) | (fuzzy hex maxdist prefix)
        | (oneof (hex ...)) | all           G = (lit n) | any | star | (cls neg (n ...))
-MODE   = freq | table           (leaf scores: stored weight, or the per-field score table)
+MODE   = freq | table | (tfidf IDF) | (bm25f K1 ((field B scorable) ...) defaultB IDF)
+         (leaf scores: stored weight; per-field score table; the Lean TF_IDF / BM25F models over the
+         Lean collection statistics, IDF = ((docCount docFreq idf) ...))
 
 answer INDEX (Q ...)                 -> ((id ...) ...)            spec: matching global doc numbers
 hits MODE INDEX (Q ...)              -> (((id score) ...) ...)    spec: ascending doc number
@@ -112,10 +115,33 @@ partial def query? (e : SExp) : Option Query :=
   | .list [.atom "const", q, s] => do pure (.constScore (← query? q) (← s.rat?))
   | _ => none
 
-def mode? (e : SExp) : Option LeafScore :=
+/-- idf values travel as a table `((docCount docFreq idf) ...)` (the logarithm is computed by the
+    harness); an absent row yields 1 -/
+def idfTable? (e : SExp) : Option Idf := do
+  let rows ← SExp.listOf? (fun r => match r with
+    | .list [n, d, v] => do pure (← n.nat?, ← d.nat?, ← v.rat?)
+    | _ => none) e
+  pure fun n d => match rows.find? (fun r => r.1 == n && r.2.1 == d) with
+    | some r => r.2.2
+    | none => 1
+
+/-- MODE = freq | table | (tfidf IDFTABLE) | (bm25f K1 ((field B scorable) ...) defaultB IDFTABLE):
+    the last two are the Lean weighting models over the Lean statistics of the whole index -/
+def mode? (e : SExp) (ix : Index) : Option LeafScore :=
   match e with
   | .atom "freq" => some freqLeaf
   | .atom "table" => some tableLeaf
+  | .list [.atom "tfidf", tbl] => do pure (tfidfLeaf (← idfTable? tbl) ix)
+  | .list [.atom "bm25f", k1, fields, b0, tbl] => do
+    let fs ← SExp.listOf? (fun r => match r with
+      | .list [.atom f, b, sc] => do pure (f, ← b.rat?, ← sc.bool?)
+      | _ => none) fields
+    let bdef ← b0.rat?
+    let p : Bm25 :=
+      { idf := ← idfTable? tbl, K1 := ← k1.rat?
+        B := fun f => match fs.find? (fun r => r.1 == f) with | some r => r.2.1 | none => bdef
+        scorable := fun f => match fs.find? (fun r => r.1 == f) with | some r => r.2.2 | none => false }
+    pure (bm25fLeaf p ix)
   | _ => none
 
 def showHits (hs : List Hit) : String :=
@@ -127,18 +153,26 @@ def handle : List SExp → String
     | some ix, some qs => showList (fun q => showNatList (answer q ix)) qs
     | _, _ => "bad-op"
   | [.atom "hits", m, idx, .list qs] =>
-    match mode? m, index? idx, qs.mapM query? with
-    | some ls, some ix, some qs => showList (fun q => showHits (hits ls q ix)) qs
-    | _, _, _ => "bad-op"
+    match index? idx, qs.mapM query? with
+    | some ix, some qs =>
+      match mode? m ix with
+      | some ls => showList (fun q => showHits (hits ls q ix)) qs
+      | none => "bad-op"
+    | _, _ => "bad-op"
   | [.atom "rank", m, idx, .list qs] =>
-    match mode? m, index? idx, qs.mapM query? with
-    | some ls, some ix, some qs => showList (fun q => showHits (rankAll ls q ix)) qs
-    | _, _, _ => "bad-op"
+    match index? idx, qs.mapM query? with
+    | some ix, some qs =>
+      match mode? m ix with
+      | some ls => showList (fun q => showHits (rankAll ls q ix)) qs
+      | none => "bad-op"
+    | _, _ => "bad-op"
   | [.atom "compile", m, nc, sc, idx, .list qs] =>
-    match mode? m, nc.bool?, sc.bool?, index? idx, qs.mapM query? with
-    | some ls, some nc, some sc, some ix, some qs =>
-      showList (fun q => showList (fun s => showHits (compile ls balancedOracle s ⟨nc, sc⟩ q)) ix) qs
-    | _, _, _, _, _ => "bad-op"
+    match nc.bool?, sc.bool?, index? idx, qs.mapM query? with
+    | some nc, some sc, some ix, some qs =>
+      match mode? m ix with
+      | some ls => showList (fun q => showList (fun s => showHits (compile ls balancedOracle s ⟨nc, sc⟩ q)) ix) qs
+      | none => "bad-op"
+    | _, _, _, _ => "bad-op"
   | [.atom "wf", idx, .list qs] =>
     match index? idx, qs.mapM query? with
     | some ix, some qs =>
